@@ -16,6 +16,7 @@
 """Model Modifier class that produce the final quantized TFlite model."""
 
 import copy
+import os
 
 import numpy as np
 
@@ -70,6 +71,16 @@ class ModelModifier:
         instructions, quantized_model
     )
     constant_buffer_size = self._process_constant_map(quantized_model)
+    # Verification hook (off unless AI_EDGE_QUANTIZER_VERIF=1): lowers the
+    # large-model threshold so small models exercise external buffers.
+    if os.environ.get('AI_EDGE_QUANTIZER_VERIF') == '1':
+      verif_threshold = os.environ.get(
+          'AI_EDGE_QUANTIZER_VERIF_LARGE_MODEL_THRESHOLD'
+      )
+      if verif_threshold is not None and constant_buffer_size > int(
+          verif_threshold
+      ):
+        return self._serialize_large_model(quantized_model)
     if constant_buffer_size > 2**31 - 2**20:
       return self._serialize_large_model(quantized_model)
     else:
